@@ -60,12 +60,47 @@ def make_out(shape, layout):
     return np.full(2 * shape[0] + 1, -1, dtype=np.float32)[1:2 * shape[0] + 1:2]
 
 
+_H5_CACHE = {}
+
+
+def h5_container(sigs):
+    """A real signature file on disk (HDF5) holding `sigs`; files are written at import time (see below)."""
+    from gambit.sigs.base import load_signatures
+    key = tuple(int(s[0]) for s in sigs)
+    if key not in _H5_CACHE:
+        _H5_CACHE[key] = load_signatures(_h5_path(key))
+    return _H5_CACHE[key]
+
+
+def _h5_path(key):
+    return os.path.join(os.path.dirname(os.path.dirname(os.path.abspath(__file__))), 'scratch', 'c05_' + '_'.join(map(str, key)) + '.gs')
+
+
+def _prepare_h5():
+    from gambit.sigs.base import dump_signatures, AnnotatedSignatures
+    os.makedirs(os.path.dirname(_h5_path((0,))), exist_ok=True)
+    for first, count in [(8, n) for n in range(1, MAXR + 1)] + [(0, n) for n in range(1, MAXR + 1)]:
+        sigs = [sig(first + j) for j in range(count)]
+        key = tuple(int(s[0]) for s in sigs)
+        p = _h5_path(key)
+        if not os.path.exists(p):
+            tmp = p + f'.{os.getpid()}.tmp'
+            dump_signatures(tmp, AnnotatedSignatures(SignatureArray(sigs, KS), ids=[f'id{j}' for j in range(count)]))
+            os.replace(tmp, p)
+
+
 def container(kind, sigs):
+    if kind == 3:
+        return h5_container(sigs)
     if kind == 0:
         return SignatureArray(sigs, KS)
     if kind == 1:
         return SignatureList(sigs, KS)
     return list(sigs)
+
+
+if P.get('kind') == 3:
+    _prepare_h5()
 
 
 def _matrix_concrete(nq, nr, chunk, kind, nsel, s0, s1, s2, own_out, qkind):
@@ -98,7 +133,7 @@ def _matrix_concrete(nq, nr, chunk, kind, nsel, s0, s1, s2, own_out, qkind):
 
 
 def _matrix_run(nq, nr, chunk, kind, nsel, s0, s1, s2, own_out, qkind):
-    a = [fork_int(nq, 1, MAXQ), fork_int(nr, 1, MAXR), fork_int(chunk, 0, MAXR + 1), fork_int(kind, 0, 2), fork_int(nsel, 0, 4),
+    a = [fork_int(nq, 1, MAXQ), fork_int(nr, 1, MAXR), fork_int(chunk, 0, MAXR + 1), fork_int(kind, 0, 3), fork_int(nsel, 0, 4),
          fork_int(s0, 0, MAXR - 1), fork_int(s1, 0, MAXR - 1), fork_int(s2, 0, MAXR - 1)]
     oo = fork_int(own_out, 0, 2)
     with NoTracing():
@@ -107,7 +142,7 @@ def _matrix_run(nq, nr, chunk, kind, nsel, s0, s1, s2, own_out, qkind):
 
 def _c05_matrix(nq: int, nr: int, chunk: int, kind: int, nsel: int, s0: int, s1: int, s2: int, own_out: int, qkind: bool) -> bool:
     """
-    pre: 1 <= nq <= MAXQ and 1 <= nr <= MAXR and 0 <= chunk <= MAXR + 1 and 0 <= kind <= 2 and 0 <= nsel <= 4 and 0 <= own_out <= 2
+    pre: 1 <= nq <= MAXQ and 1 <= nr <= MAXR and 0 <= chunk <= MAXR + 1 and 0 <= kind <= 3 and 0 <= nsel <= 4 and 0 <= own_out <= 2 and (kind < 3 or P.get('kind') == 3)
     pre: all(0 <= s < MAXR for s in (s0, s1, s2)) and (nsel > 1 or s0 == 0) and (nsel > 2 or s1 == 0) and (nsel > 3 or s2 == 0)
     pre: ('kind' not in P or kind == P['kind']) and nsel <= MAXSEL + 1
     pre: 'longsel' not in P or (nsel == MAXSEL + 1 and nq == 1 and nr == MAXR)
@@ -117,7 +152,7 @@ def _c05_matrix(nq: int, nr: int, chunk: int, kind: int, nsel: int, s0: int, s1:
 
 
 def explain_c05_matrix(nq, nr, chunk, kind, nsel, s0, s1, s2, own_out, qkind):
-    return {'queries': nq, 'refs': nr, 'chunksize': chunk or None, 'container': ['SignatureArray', 'SignatureList', 'list'][kind],
+    return {'queries': nq, 'refs': nr, 'chunksize': chunk or None, 'container': ['SignatureArray', 'SignatureList', 'list', 'HDF5Signatures'][kind],
             'ref_indices': None if nsel == 0 else [s0, s1, s2][:nsel - 1], 'out(0 none,1 C-contiguous,2 non-contiguous)': own_out, 'why': _matrix_run(nq, nr, chunk, kind, nsel, s0, s1, s2, own_out, qkind)[1]}
 
 
@@ -161,7 +196,7 @@ def _pairwise_concrete(n, kind, nsel, s0, s1, s2, s3, flat, own_out):
 
 
 def _pairwise_run(n, kind, nsel, s0, s1, s2, s3, flat, own_out):
-    a = [fork_int(n, 1, MAXR), fork_int(kind, 0, 2), fork_int(nsel, 0, 5), fork_int(s0, 0, MAXR - 1), fork_int(s1, 0, MAXR - 1),
+    a = [fork_int(n, 1, MAXR), fork_int(kind, 0, 3), fork_int(nsel, 0, 5), fork_int(s0, 0, MAXR - 1), fork_int(s1, 0, MAXR - 1),
          fork_int(s2, 0, MAXR - 1), fork_int(s3, 0, MAXR - 1)]
     oo = fork_int(own_out, 0, 2)
     with NoTracing():
@@ -170,7 +205,7 @@ def _pairwise_run(n, kind, nsel, s0, s1, s2, s3, flat, own_out):
 
 def _c05_pairwise(n: int, kind: int, nsel: int, s0: int, s1: int, s2: int, s3: int, flat: bool, own_out: int) -> bool:
     """
-    pre: 1 <= n <= MAXR and 0 <= kind <= 2 and 0 <= nsel <= 5 and all(0 <= s < MAXR for s in (s0, s1, s2, s3)) and 0 <= own_out <= 2
+    pre: 1 <= n <= MAXR and 0 <= kind <= 3 and 0 <= nsel <= 5 and all(0 <= s < MAXR for s in (s0, s1, s2, s3)) and 0 <= own_out <= 2 and (kind < 3 or P.get('kind') == 3)
     pre: (nsel > 1 or s0 == 0) and (nsel > 2 or s1 == 0) and (nsel > 3 or s2 == 0) and (nsel > 4 or s3 == 0)
     pre: ('kind' not in P or kind == P['kind']) and nsel <= MAXSEL + 2
     pre: 'longsel' not in P or (nsel == MAXSEL + 2 and n == MAXR)
@@ -180,7 +215,7 @@ def _c05_pairwise(n: int, kind: int, nsel: int, s0: int, s1: int, s2: int, s3: i
 
 
 def explain_c05_pairwise(n, kind, nsel, s0, s1, s2, s3, flat, own_out):
-    return {'n': n, 'container': ['SignatureArray', 'SignatureList', 'list'][kind], 'indices': None if nsel == 0 else [s0, s1, s2, s3][:nsel - 1], 'flat': flat,
+    return {'n': n, 'container': ['SignatureArray', 'SignatureList', 'list', 'HDF5Signatures'][kind], 'indices': None if nsel == 0 else [s0, s1, s2, s3][:nsel - 1], 'flat': flat,
             'out(0 none,1 C-contiguous,2 non-contiguous)': own_out, 'why': _pairwise_run(n, kind, nsel, s0, s1, s2, s3, flat, own_out)[1]}
 
 
@@ -250,4 +285,4 @@ def _c05_array(nr: int, kind: int, own_out: int, dtype_i: int) -> bool:
 
 
 def explain_c05_array(nr, kind, own_out, dtype_i):
-    return {'refs': nr, 'container': ['SignatureArray', 'SignatureList', 'list'][kind], 'why': _array_run(nr, kind, own_out, dtype_i)[1]}
+    return {'refs': nr, 'container': ['SignatureArray', 'SignatureList', 'list', 'HDF5Signatures'][kind], 'why': _array_run(nr, kind, own_out, dtype_i)[1]}
